@@ -119,7 +119,7 @@ class _Null(object):
 class BrokerRig(object):
     UNKNOWN = "__no_such_portfolio__"
 
-    def __init__(self, t0, quotes_mil, fee, observer, printing=False):
+    def __init__(self, t0, quotes_mil, fee, observer, printing=False, ctor_funds=False):
         from qstrader.broker.simulated_broker import SimulatedBroker
         from qstrader.exchange.simulated_exchange import SimulatedExchange
         from qstrader import settings
@@ -129,8 +129,19 @@ class BrokerRig(object):
         self.fee = fee
         self.obs = observer
         start = ts(t0)
-        self.broker = SimulatedBroker(start, SimulatedExchange(start), self.handler,
-                                      account_id="acct", initial_funds=0.0, fee_model=make_fee(fee))
+        self.t0 = t0
+        # ctor_funds: a first account subscription is delivered as the constructor's `initial_funds` instead
+        self.ctor_funds = bool(ctor_funds)
+        self.ncalls = 0
+        import sys
+        saved = sys.stdout
+        sys.stdout = _Null()
+        try:
+            self.broker = SimulatedBroker(start, SimulatedExchange(start), self.handler,
+                                          account_id="acct", initial_funds=0.0, fee_model=make_fee(fee))
+        finally:
+            sys.stdout = saved
+            settings.set_print_events(False)
         self.oid = 0
         self.oid_of = {}             # order_id string -> spec order id
 
@@ -155,8 +166,15 @@ class BrokerRig(object):
         op = c["op"]
         amt = c["fa"] if "fa" in c else (cur(c["a"]) if "a" in c else None)
         err = "ok"
+        self.ncalls += 1
         try:
-            if op == "sub_acct":
+            if op == "sub_acct" and self.ctor_funds and self.ncalls == 1 and amt is not None and amt > 0:
+                from qstrader.broker.simulated_broker import SimulatedBroker
+                from qstrader.exchange.simulated_exchange import SimulatedExchange
+                start = ts(self.t0)
+                b = self.broker = SimulatedBroker(start, SimulatedExchange(start), self.handler, account_id="acct",
+                                                  initial_funds=amt, fee_model=make_fee(self.fee))
+            elif op == "sub_acct":
                 b.subscribe_funds_to_account(amt)
             elif op == "wd_acct":
                 b.withdraw_funds_from_account(amt)
